@@ -95,6 +95,18 @@ def model(name):
         obj = lin(["bin", "/", x0, P_], ["bin", "/", mul(1.25, x1), ["raw", 1.0, "float"]])
         cons = [["rel", ">=", lin(x0, x1), ["raw", 2.0, "float"], "direct"], ["rel", "<=", ["bin", "/", ["bin", "-", x0, x1], P_], ["raw", 4.0, "float"], "direct"]]
         return d, obj, cons, "min"
+    if name in ("matrix-param-function-api:quadratic_form", "matrix-param-function-api:matmul"):
+        # the MatrixParameter handed to quadratic_form() / matmul() directly (if the API accepts it, it must follow set())
+        d = base + [{"k": "mpar", "name": "S", "vals": SPD[0], "sym": True}, {"k": "vpar", "name": "r", "vals": [1.0, -2.0]}]
+        obj = lin(["dotP", _x, "S", _x, name.split(":")[1]], ["matmul", ["vparv", "r"], _x])
+        cons = [["rel", "==", ["sum", _x], ["raw", 1.0, "float"], "direct"]]
+        return d, obj, cons, "min"
+    if name == "param-times-reduction":
+        # the WHOLE objective / constraint is `parameter * reduction` (+ scalar): forms with a per-node Jacobian row
+        obj = lin(mul(P_, ["dot", _x, _x]), ["raw", 1.0, "float"])
+        cons = [["rel", ">=", ["bin", "*", ["sum", _x], P_], ["raw", 1.0, "float"], "direct"],
+                ["rel", "<=", mul(Q_, ["matmul", ["arr", [1.0, -1.0]], _x]), ["raw", 4.0, "float"], "direct"]]
+        return base, obj, cons, "min"
     if name == "deep-accumulated":
         # an objective accumulated term by term beyond the depth at which the iterative compiler / differentiator take over,
         # with the parameters inside the accumulation
@@ -112,6 +124,8 @@ def model(name):
 
 MODELS = ["coef+rhs", "fn-arg+cons-coef", "vector-param", "lp-like", "exponent", "matrix-param", "bare-param-derivative",
           "max-concave", "constant-term", "deep-accumulated", "vector-param-on-the-right", "divisor-params-linear"]
+OPTIONAL_MODELS = ["matrix-param-function-api:quadratic_form", "matrix-param-function-api:matmul"]  # may be rejected at build time
+MODELS = MODELS + ["param-times-reduction"] + OPTIONAL_MODELS
 METHODS = ["auto", "SLSQP", "trust-constr"]
 
 
@@ -122,7 +136,7 @@ def info(tier):
         "callable} on %d parameterised model families; every observation compared with the reference at current parameter "
         "values or with the twin process (fresh Parameter objects; literal Constants); distinct = distinct (model, history) hashes"
         % (LEN[tier][0], LEN[tier][1], len(MODELS)),
-        "required_cells": [f"model:{m}" for m in MODELS] + ["obs:evaluate", "obs:compiled-value", "obs:compiled-gradient", "obs:compiled-jacobian",
+        "required_cells": [f"model:{m}" for m in MODELS if m not in OPTIONAL_MODELS] + ["obs:evaluate", "obs:compiled-value", "obs:compiled-gradient", "obs:compiled-jacobian",
                                                             "obs:compiled-hessian", "obs:solve-vs-fresh-parameters", "obs:solve-vs-constants",
                                                             "after-set", "solve:warm-start-at-previous-solution"],
         "assumptions": [
@@ -150,8 +164,14 @@ def run_history(rec, rng, twin, mname, length):
             d["vals"] = [list(r) for r in rng.choice([SPD[1], SPD[4], SPD[0]])]
     D = R.Decls(decls)
     prob = {"decls": decls, "objective": obj, "sense": sense, "constraints": cons}
-    b = B.Builder(decls)
-    P = b.problem(prob)
+    try:
+        b = B.Builder(decls)
+        P = b.problem(prob)
+    except Exception as ex:
+        if mname in OPTIONAL_MODELS:
+            rec.events[f"model-rejected-at-build:{mname}:{type(ex).__name__}"] += 1
+            return
+        raise
     names = ["x[0]", "x[1]"]
     Vobjs = b.variables(names)
     e_obj = P.objective
